@@ -270,38 +270,28 @@ def W4(ctx):
                         return None
                     return None
             ctx.ok("W4", "%s:%s=%s" % (fk, field, val), "allowed writer", [site_str(prog, w["fn"], w["bb"])])
-    # might_spur = spurious && !did_spur
-    mk = NSTATE + "::might_spur"
-    fn = need_fn(ctx, "W4", mk)
-    if fn is not None:
-        n += 1
-        body = fn.body
-        ok = False
-        for b in range(body.n):
-            for s in body.blocks[b]["stmts"]:
-                if s["k"] == "=" and s["lhs"]["l"] == 0:
-                    e = body.expr_of_rvalue(s["rv"])
-                    if e[0] == "unop" and e[1] == "Not" and mentions_field(e, NSTATE, "did_spur"):
-                        g = guard_atoms(body, b)
-                        if any(mentions_field(ge, NSTATE, "spurious") and pol is True for (ge, pol, v, sb) in g):
-                            ok = True
-        if ok:
-            ctx.ok("W4", mk, "spurious && !did_spur: at most one spurious return per Notify", [fn.loc()])
+    # the spurious branch is offered only when the Notify may spur and has not spurred yet: at the branch_spurious site
+    # `spurious` is known true and `did_spur` known false (whether tested through State::might_spur or in place)
+    found = False
+    for ssite in call_sites(prog, "rt::path::Path::branch_spurious"):
+        if enclosing_fn(ssite["fn"]) != "rt::notify::Notify::wait":
+            continue
+        found = True
+        n += 2
+        atoms = expanded_guard_atoms(prog, ssite["fn"], ssite["bb"])
+        sp = any(pol is True and mentions_field(e, NSTATE, "spurious") is not None and mentions_field(e, NSTATE, "did_spur") is None for (e, pol) in atoms)
+        nd = any(pol is False and mentions_field(e, NSTATE, "did_spur") is not None and mentions_field(e, NSTATE, "spurious") is None for (e, pol) in atoms)
+        if sp and nd:
+            ctx.ok("W4", "rt::notify::Notify::wait:spur-guard", "branch_spurious only when spurious && !did_spur: at most one spurious return per Notify",
+                   [site_str(prog, ssite["fn"], ssite["bb"])])
+        elif not sp and not nd:
+            ctx.bad("W4", "rt::notify::Notify::wait", "spurious branch is offered although the Notify cannot (or no longer may) spur",
+                    site_str(prog, ssite["fn"], ssite["bb"]), detail="spur-guard")
         else:
-            ctx.bad("W4", mk, "might_spur must be `spurious && !did_spur`", fn.loc(), detail="might_spur")
-    # the spurious branch is taken only under might_spur
-    wk = "rt::notify::Notify::wait::{closure#0}"
-    fn = need_fn(ctx, "W4", wk)
-    if fn is not None:
-        n += 1
-        inst = prog.ident(wk)
-        for (b, t, c) in prog.sites(inst):
-            if prog.callee_key(c) == "rt::path::Path::branch_spurious":
-                if unreachable_if(fn.body, b, assume_calls({NSTATE + "::might_spur": False})):
-                    ctx.ok("W4", wk, "branch_spurious only when might_spur()", [site_str(prog, wk, b)])
-                else:
-                    ctx.bad("W4", "rt::notify::Notify::wait", "spurious branch is offered although the Notify cannot (or no longer may) spur",
-                            site_str(prog, wk, b), detail="spur-guard")
+            ctx.bad("W4", NSTATE + "::might_spur", "the spurious branch must be guarded by `spurious && !did_spur` (spurious known=%s, "
+                    "did_spur known false=%s)" % (sp, nd), site_str(prog, ssite["fn"], ssite["bb"]), detail="might_spur")
+    if not found:
+        ctx.missing("W4", "rt::notify::Notify::wait", "no branch_spurious site")
     ctx.floor("W4", n, 7, "writers of notified/did_spur + might_spur + spurious guard")
     # consume / acquire pairing in Notify::wait: (a) every return that is not the spurious one (yield_now) has consumed the
     # notification flag; (b) wherever the flag may be consumed, the acquire of the notifier's clock is on every path to return
